@@ -114,7 +114,17 @@ Catalog == <<
       Ign(Plain(<<T("ip"), T("secret"), TT>>, <<>>, <<>>)),
       Glob(Ign(Plain(<<T("secret"), TT>>, <<>>, <<>>))),
       Plain(<<T("blk"), ST>>, << << <<"blk","1">> >> >>, <<
-          Plain(<<TT>>, << << <<"x","1">> >>, << <<"y">> >> >>, <<>>) >>) >>]
+          Plain(<<TT>>, << << <<"x","1">> >>, << <<"y">> >> >>, <<>>) >>) >>],
+  [name |-> "rewrite-sandwich", rules |-> <<       \* %rewrite > ordinary rule > %rewrite again: the inner group is not the outermost rewrite
+      Plain(<<T("rs"), ST>>, << << <<"rs","1">> >> >>, <<
+          Rew(Plain(<<T("term"), ST>>, << << <<"term","1">> >> >>, <<
+              Plain(<<T("from")>>, << << <<"from">>, <<"from","v1">> >> >>, <<>>),
+              Plain(<<T("then")>>, << << <<"then">> >> >>, <<
+                  Rew(Plain(<<T("set"), ST>>, << << <<"set","1">> >>, << <<"set","2">> >> >>, <<>>)) >>) >>)) >>) >>],
+  [name |-> "slash-key", rules |-> <<              \* a placeholder with its own regex, `*/(e1/1|e1/2)/`: the regex (and the key) contain slashes
+      Plain(<<T("port"), [t |-> "set", S |-> <<"e1/1", "e1/2">>, cap |-> TRUE]>>, << << <<"port","e1/1">> >>, << <<"port","e1/2">> >> >>, <<
+          Plain(<<T("mtu")>>, << << <<"mtu">>, <<"mtu","9">> >> >>, <<>>) >>),
+      Plain(<<T("a"), ST>>, << << <<"a","1">> >> >>, <<>>) >>]
 >>
 
 (* ------------------------------ Configs(R) ------------------------------ *)
